@@ -425,4 +425,49 @@ def _tiny_grammar():
     return _G
 
 
-FACETS = [SourcesFacet(), WeightedExhaustiveFacet(), DeciderIntFacet()]
+class DeciderIntAllWidths(Facet):
+    """BaseDecider.random_int for EVERY width in a range above 1000 and EVERY decision path of a
+    scripted source (the violating widths of an off-by-one are isolated points, e.g. 2*n**e - 1)."""
+
+    name = "decider_random_int_all_widths"
+    enumerative = True
+
+    def budget(self, tier):
+        return (0, 8) if tier == "quick" else (0, 16)
+
+    def cases(self, tier, shard, nshards):
+        top = 5200 if tier == "quick" else 40000
+        for w in range(1001 + shard, top, nshards):
+            yield {"width": w, "lo": [0, -1000, 17][w % 3]}
+
+    def run(self, case, rec):
+        from geneticengine.representations.tree.initializations import MaxDepthDecider
+
+        lo = case["lo"]
+        hi = lo + case["width"]
+        g = _tiny_grammar()
+
+        def run(src):
+            return MaxDepthDecider(src, g, 3).random_int(lo, hi)
+
+        paths, complete = enumerate_collect(run, 2000, max_width=64)
+        if rec.stats.exhaustive is None:
+            rec.stats.exhaustive = True
+        rec.stats.exhaustive = rec.stats.exhaustive and complete
+        rec.stats.labels["paths"] += len(paths)
+        rec.sample(case, limit=3)
+        if case["width"] % 2 == 1:
+            rec.nontrivial(case["width"])
+        for trace, v, exc in paths:
+            if exc is not None:
+                rec.fail(f"C18/decider/base/raised-{type(exc).__name__}", f"random_int({lo},{hi}) raised {exc!r}")
+                return
+            if type(v) is not int or not (lo <= v <= hi):
+                rec.fail(
+                    "C18/decider/base/random_int-out-of-bounds",
+                    f"BaseDecider.random_int({lo},{hi}) (width {case['width']}) -> {v} on draws {[t[2] for t in trace]}",
+                )
+                return
+
+
+FACETS = [SourcesFacet(), WeightedExhaustiveFacet(), DeciderIntFacet(), DeciderIntAllWidths()]
